@@ -135,17 +135,19 @@ fn f6_shape(text: &str) -> bool {
     // (c) an optional repetition as the first component followed only by tree wildcards
     //     (`<a:0,>/**`, `<ab:0,3>/**`): with zero repetitions it matches the empty path, i.e. the
     //     walk root, "exhaustively", although it matches nothing else beneath the root
-    let c = comps.len() >= 2
-        && comps[0].starts_with('<')
-        && single_group(&comps[0])
+    //     — also behind leading tree wildcards (`**/<a:0,>/**`), which match the empty path too
+    let k = comps.iter().take_while(|c| *c == "**").count();
+    let c = comps.len() >= k + 2
+        && comps[k].starts_with('<')
+        && single_group(&comps[k])
         && {
-            let inner = &comps[0][1..comps[0].len() - 1];
+            let inner = &comps[k][1..comps[k].len() - 1];
             match inner.rfind(':') {
                 Some(i) if inner[i + 1..].chars().all(|c| c.is_ascii_digit() || c == ',') => inner[i + 1..].starts_with("0,") || &inner[i + 1..] == "0",
                 _ => true,
             }
         }
-        && comps[1..].iter().all(|c| c == "**");
+        && comps[k + 1..].iter().all(|c| c == "**");
     a || b || c
 }
 
